@@ -1541,6 +1541,9 @@ def expect_popsum(rep, rule, key, got, spec_terms, desc):
             return
     elif isinstance(got, Opaque) and "pop" in got.info:
         terms = got.info["pop"]
+    elif isinstance(got, Int) and got.sf is not None and (len(got.sf) == 0 or (len(got.sf) == 1 and got.sf[0][0] == 0 and len(got.sf[0][2]) < (1 << got.sf[0][1]))):
+        # counted in the register (mask / shift / add): one exact counter in the low bits
+        terms = list(got.sf[0][2]) if got.sf else []
     elif isinstance(got, Int) and got.tags and any(t.startswith("popsum:") for t in got.tags):
         terms = None
     if terms is None:
@@ -1807,6 +1810,45 @@ def view_base_bits(src, start, length, rc, i):
         return var(src, 2 * j), var(src, 2 * j + 1)
     j = start + length - 1 - i
     return t_not(var(src, 2 * j)), t_not(var(src, 2 * j + 1))
+
+
+def slice_hamming_lemmas(F, rep, rule="C15.2"):
+    """DnaStringSlice::hamming_dist, exact, on views made of whole 32-base blocks over two symbolic backing strings: the result is a count
+    whose counted terms are exactly "position i of self differs from position i of other", i = 0..len — however the blocks are fetched and
+    however the differing lanes are counted (count_ones, or in-register sums)"""
+    try:
+        dt = DnaT(F)
+    except Unsupported as e:
+        rep.inconclusive(rule, "DnaString", "role discovery: %s" % e)
+        return
+    flds = [f["name"] for f in F.adts.get(SLICE_T, {}).get("variants", [{}])[0].get("fields", [])] if hasattr(F, "adts") else []
+    order = flds if sorted(flds) == sorted(["dna_string", "start", "length", "is_rc"]) else ["dna_string", "start", "length", "is_rc"]
+    c = [k for k in F.insts if k.startswith(SLICE_T) and k.endswith("::hamming_dist")]
+    if not c:
+        rep.violated(rule, "exact/hamming_dist", "anchor-missing: DnaStringSlice::hamming_dist", witness={"kind": "anchor-missing"})
+        return
+    key = c[0]
+
+    def mkview(back_cell, start, length, rc):
+        vals = {"dna_string": Ref(back_cell), "start": usize(start), "length": usize(length), "is_rc": Int(8, False, val=int(rc), kind="bool")}
+        return Adt(SLICE_T, 0, [vals[k] for k in order])
+    nback = 140
+    for (st1, st2, ln, rc1, rc2) in ((0, 0, 0, False, False), (0, 0, 32, False, False), (1, 33, 32, False, True), (33, 2, 64, True, True), (5, 5, 64, True, False),
+                                     (7, 40, 96, False, True)):
+        vk = "self=(%d,%d,%s)/other=(%d,%d,%s)" % (st1, ln, int(rc1), st2, ln, int(rc2))
+
+        def f(st1=st1, st2=st2, ln=ln, rc1=rc1, rc2=rc2, vk=vk):
+            a = mkview(Cell(dt.sym("s", nback), "back-s"), st1, ln, rc1)
+            b = mkview(Cell(dt.sym("t", nback), "back-t"), st2, ln, rc2)
+            r, _ = run_inst(F, key, [Ref(Cell(a, "self")), Ref(Cell(b, "other"))])
+            spec = []
+            for i in range(ln):
+                alo, ahi = view_base_bits("s", st1, ln, rc1, i)
+                blo, bhi = view_base_bits("t", st2, ln, rc2, i)
+                spec.append(t_or(t_xor(ahi, bhi), t_xor(alo, blo)))
+            expect_popsum(rep, rule, "exact/hamming_dist/" + vk, r, spec,
+                          "hamming_dist of two %d-base views (starts %d / %d, is_rc %s / %s) counts exactly the positions where the views differ" % (ln, st1, st2, rc1, rc2))
+        guarded(rep, rule, "exact/hamming_dist/" + vk, "hamming_dist", f)
 
 
 def slice_getkmer_lemmas(F, rep, rule="C15.1", quick=True):
